@@ -7,6 +7,7 @@ label list of each run is (a) replayed by the Lean acceptor on `HC.Conn.Server` 
 `HC/Props/C03.lean` are about - and the projections compared, (b) judged directly by the monitors below."""
 from __future__ import annotations
 
+import random
 from typing import Any, Dict, List
 
 from ..core import conn as K
@@ -14,9 +15,9 @@ from ..core.framework import Ctx
 
 SPEC = {
     "modules": ["HC.Props.C03", "HC.Props.C07"],
-    "extracted": ["ConnGuards"],
+    "extracted": ["ConnGuards", "WsSeq"],
     "technique": "Lean 4 invariants of an executable timed model of one connection (reader, applications, idle timer, closer tasks; bounded application queues with FIFO blocked putters; programs resumed after a blocked put) proved for every instruction from every invariant state, hence for all operation sequences, schedules, queue capacities and timeouts; tied by trace acceptance of the real TCPServer's label lists (both workers, virtual time, taps on h11/h2/wsproto and on the queues), by monitors on the implementation's observations, and by guards regenerated from the AST",
-    "level_text": "Proved for every configuration and every operation sequence: at most one disconnect is ever handed to an application instance and nothing after it (stated on the message lists: the disconnect occurs only as the last element, what the application received is a FIFO prefix); the disconnect is handed over in the same atomic action that closes the stream, whatever the queue's fill state; when the handler finishes every instance has exactly one; protocol.handle(Closed) is, from any state and for any reporter (failed write, reader's end, idle timer), the program that tells every stream registered at that moment - also on a connection already marked closed (HTTP/2 registers streams on a closed connection), and telling an open stream hands over its disconnect; a closed WebSocket accepts every message as a no-op, a closed HTTP stream accepts every state-valid message (HTTP/1: unless h11 itself refuses - sampled); an HTTP request never has more than one access record and has exactly one once its stream is closed or its response ended, hence exactly one at handler completion.  Tie: generated histories x both workers replayed by the model's acceptor (close / completion instants, per-instance received and handed-over message lists, access counts, blocked tasks compared), monitors on the implementation alone, extractor for the closed-flag guards.",
+    "level_text": "Proved for every configuration and every operation sequence: at most one disconnect is ever handed to an application instance and nothing after it (stated on the message lists: the disconnect occurs only as the last element, what the application received is a FIFO prefix); the disconnect is handed over in the same atomic action that closes the stream, whatever the queue's fill state; when the handler finishes every instance has exactly one; protocol.handle(Closed) is, from any state and for any reporter (failed write, reader's end, idle timer), the program that tells every stream registered at that moment - also on a connection already marked closed (HTTP/2 registers streams on a closed connection), and telling an open stream hands over its disconnect; a closed WebSocket accepts every message as a no-op, a closed HTTP stream accepts every state-valid message (HTTP/1: unless h11 itself refuses - sampled); an HTTP request never has more than one access record and has exactly one once its stream is closed or its response ended, hence exactly one at handler completion; every path through WSStream.handle / app_send that closes the stream (written out step by step by the extractor) ends, with the connection lost during any one of its awaits or none, with the stream closed and exactly one disconnect handed to its application, nothing after it.  Tie: generated histories x both workers replayed by the model's acceptor (close / completion instants, per-instance received and handed-over message lists, access counts, blocked tasks compared), monitors on the implementation alone, extractor for the closed-flag guards and for the closing sequences of WSStream.",
     "level_note": "Trusted: Lean kernel; the model HC/Conn/Server.lean (payload-abstracted; tied by trace acceptance only); the atomicity assumption (a task suspends only in app_put on a full queue); h11/h2/wsproto (events are inputs); asyncio/trio scheduling; the harness's transports, taps and monitors.  Model guards that mirror code structure rather than a literal test (noted in design_notes/C03.md) are validated by the acceptance of every run.",
     "rule": "family x close source x phase at close x application behaviour x queue capacity x worker; distinct = (family, app kinds, closer, where, cap, T); non-trivial = a close raced with a live instance (a disconnect was handed over while the application had not finished)",
     "trusted": ["taps on asyncio.Queue / trio memory channels as the record of what was handed to an application"],
@@ -80,10 +81,15 @@ def monitor(ctx: Ctx, case: dict, sc: dict, an: dict) -> None:
 
 def gen(ctx: Ctx, n: int) -> List[dict]:
     cases = []
+    fault = random.Random(ctx.seed * 7919 + 3)      # a stream of its own: the histories themselves stay what they were
     for k in range(n):
         T = ctx.rng.choice([0.01, 1, 1, 5, 5, 3600])
         fam = ctx.rng.choice(["h1", "h1", "h1", "ws", "h2"])
         sc = {"h1": K.gen_h1, "ws": K.gen_ws, "h2": K.gen_h2}[fam](ctx.rng, T)
+        if fam == "ws" and fault.random() < 0.35:
+            # the peer resets at one of the first writes of the session: the 101 / the stream's own 4xx / 500, a frame, the close echo
+            sc["fail_at_write"] = fault.choice([1, 1, 2, 2, 3])
+            ctx.count("ws_fail_at_write", sc["fail_at_write"])
         sc["family"] = fam
         sc["key"] = k
         cases.append(sc)
@@ -123,6 +129,11 @@ def run(ctx: Ctx) -> None:
     for c in ct:
         ctx.count("closed_twice", c["key"][-1] if c["key"][-1] in ("alpn", "prior") else "alpn")
     K.run_cases(ctx, ct, monitor)
+    # … WebSocket: the connection is lost at every write of the sequences in which the stream answers and closes on its own
+    wsq = K.ws_sequence_fault_corpus()
+    for c in wsq:
+        ctx.count("ws_sequence_fault", c["key"][1])
+    K.run_cases(ctx, wsq, monitor)
     K.run_cases(ctx, g, monitor)
     K.run_cases(ctx, gen(ctx, ctx.budget(300, 9000)), monitor)
 
